@@ -157,6 +157,7 @@ func main() {
 	prop := flag.String("p", "", "property id (C01…C20)")
 	tier := flag.String("tier", "", "quick|thorough (default: $VERIF_TIER or quick)")
 	list := flag.Bool("list", false, "list properties with checks")
+	verbose := flag.Bool("v", false, "print every obligation")
 	dump := flag.String("dump", "", "debug: print SSA of pkg:recv:name (loads that package only)")
 	flag.Parse()
 	if *dump != "" {
@@ -200,6 +201,7 @@ func main() {
 		fmt.Fprintf(os.Stderr, "vcheck: no check for property %q\n", *prop)
 		os.Exit(2)
 	}
+	verboseObs = *verbose
 	os.Exit(runProp(*prop, *tier, def))
 }
 
@@ -239,6 +241,8 @@ func runProp(id, tier string, def *propDef) (code int) {
 	}
 	return finish(rep, known, seed, start, evPath, violPath)
 }
+
+var verboseObs bool
 
 var thorough = map[string]func(w *World, r *Report){}
 
@@ -284,6 +288,11 @@ func finish(rep *Report, known []knownFinding, seed int, start time.Time, evPath
 		rep.Prop, rep.Tier, len(rep.Obs), discharged, len(knownHit), len(viol), time.Since(start).Seconds())
 	for _, rule := range rules {
 		fmt.Printf("  rule %-28s instances=%-3d floor=%d\n", rule, counts[rule], rep.floors[rule])
+	}
+	if verboseObs {
+		for _, o := range rep.Obs {
+			fmt.Printf("  [%v] %s :: %s @ %s — %s\n", o.OK, o.Rule, o.Key, o.Pos, o.Desc)
+		}
 	}
 	for _, l := range knownHit {
 		fmt.Println(l)
